@@ -617,9 +617,19 @@ func stressStat(iters int, wg *sync.WaitGroup, start chan struct{}) {
 func main() {
 	iters := flag.Int("iters", 2000, "iterations per traffic goroutine")
 	mods := flag.String("modules", "flow,isolation,hotspot,circuitbreaker,system,outlier,stat", "modules to stress")
+	mode := flag.String("mode", "stress", "stress | fault (failing loads, fault.go) | shared (concurrent calls on one object, shared.go)")
 	flag.Parse()
 	res.Iters = *iters
 	env.Init(env.Options{})
+	if *mode == "fault" || *mode == "shared" {
+		if *mode == "fault" {
+			runFaults(*mods)
+		} else {
+			runShared(*iters)
+		}
+		finish()
+		return
+	}
 	var wg sync.WaitGroup
 	start := make(chan struct{})
 	for _, m := range strings.Split(*mods, ",") {
@@ -642,6 +652,12 @@ func main() {
 	}
 	close(start)
 	wg.Wait()
+	// quiescence: every entry of the run has exited
+	gaugesZero("c15-", "after the stress run (traffic, churn and getters finished)")
+	finish()
+}
+
+func finish() {
 	if res.Failures == nil {
 		res.Failures = []failure{}
 	}
